@@ -1290,6 +1290,8 @@ func (x *cluster) trackNodeJoinEvent(ev events.NodeJoinEvent) {
 	if x.node.PeersAddress() == ev.NodeJoin {
 		return
 	}
+	// the node is back: a later departure of the same address is a new one
+	x.nodeLeftEventsFilter.Remove(ev.NodeJoin)
 	if x.nodeJoinedEventsFilter.Contains(ev.NodeJoin) {
 		return
 	}
@@ -1313,6 +1315,10 @@ func (x *cluster) trackNodeLeftEvent(ev events.NodeLeftEvent) {
 	x.eventsLock.Lock()
 	defer x.eventsLock.Unlock()
 
+	// ignore self
+	if x.node.PeersAddress() == ev.NodeLeft {
+		return
+	}
 	x.nodeJoinedEventsFilter.Remove(ev.NodeLeft)
 	if x.nodeLeftEventsFilter.Contains(ev.NodeLeft) {
 		return
@@ -1496,6 +1502,7 @@ func (x *cluster) emitNodeLeftLocked(node string, timestamp int64) {
 }
 
 func (x *cluster) emitNodeJoinedLocked(node string, timestamp int64) {
+	x.nodeLeftEventsFilter.Remove(node)
 	if x.nodeJoinedEventsFilter.Contains(node) {
 		return
 	}
